@@ -24,10 +24,12 @@ CONSTANTS
   PDrop,       \* drop probability as a rational
   Inputs,      \* sequence of integer input vectors
   GradsIn,     \* sequence of integer upstream gradients (same length as the inputs)
-  MaxHist, Record, Acts
+  MaxHist, Record, Acts,
+  Nested       \* the layer sits inside two nested containers; train()/eval() may be called on the root or on the layer
 
-VARIABLES training, rm, rv, nbt, out, mask, hist, fwds, bwout
-vars == <<training, rm, rv, nbt, out, mask, hist, fwds, bwout>>
+VARIABLES training, rm, rv, nbt, out, mask, hist, fwds, bwout,
+          ptraining      \* the training flag of the enclosing containers (only moves when Nested)
+vars == <<training, rm, rv, nbt, out, mask, hist, fwds, bwout, ptraining>>
 
 RECURSIVE Prod(_)
 Prod(s) == IF s = <<>> THEN 1 ELSE s[1] * Prod(Tail(s))
@@ -50,25 +52,29 @@ Obs == [training |-> training, rm |-> rm, rv |-> rv, nbt |-> nbt, out |-> out, b
 
 -----------------------------------------------------------------------------
 Init ==
-  /\ training = TRUE
+  /\ training = TRUE /\ ptraining = TRUE
   /\ rm = IF Layer = "bn" /\ Track THEN <<[c \in 1..NC |-> Q0]>> ELSE None
   /\ rv = IF Layer = "bn" /\ Track THEN <<[c \in 1..NC |-> Q1]>> ELSE None
   /\ nbt = 0 /\ out = None /\ mask = None /\ hist = <<>>
   /\ fwds = <<>> /\ bwout = None
 
-SetMode(tr) ==
+\* train()/eval() on the layer itself, or (Nested) on the root container: the root's call sets the mode of every
+\* reachable submodule whatever the root's own flag was; the layer's call leaves the containers alone
+SetMode(tr, on) ==
   /\ "mode" \in Acts /\ CanAct
+  /\ on \in (IF Nested THEN {"layer", "root"} ELSE {"layer"})
   /\ training' = tr
+  /\ ptraining' = IF on = "root" THEN tr ELSE ptraining
   /\ out' = None /\ bwout' = None
   /\ UNCHANGED <<rm, rv, nbt, mask, fwds>>
-  /\ hist' = Rec([a |-> IF tr THEN "train" ELSE "eval"])
+  /\ hist' = Rec(IF Nested THEN [a |-> IF tr THEN "train" ELSE "eval", on |-> on] ELSE [a |-> IF tr THEN "train" ELSE "eval"])
 
 \* ---- batch norm ------------------------------------------------------------------
 SetStats(st) ==
   /\ Layer = "bn" /\ "stats" \in Acts /\ CanAct /\ Track /\ st \in StatsSet
   /\ rm' = <<st[1]>> /\ rv' = <<st[2]>>
   /\ out' = None /\ bwout' = None
-  /\ UNCHANGED <<training, nbt, mask, fwds>>
+  /\ UNCHANGED <<training, nbt, mask, fwds, ptraining>>
   /\ hist' = Rec([a |-> "setstats", rm |-> st[1], rv |-> st[2]])
 
 BNForward(bi) ==
@@ -92,7 +98,7 @@ BNForward(bi) ==
         \* the output keeps, for its backward pass, the statistics THIS forward normalised with
         /\ fwds' = Append(fwds, [mode |-> IF useBatch THEN "batch" ELSE "stats", el |-> out'[1], shape |-> b.shape])
   /\ bwout' = None
-  /\ UNCHANGED <<training, mask>>
+  /\ UNCHANGED <<training, mask, ptraining>>
   /\ hist' = Rec([a |-> "fwd", b |-> bi])
 
 \* backward through the k-th forward pass of this history (possibly after later forwards / mode switches):
@@ -101,7 +107,7 @@ BNBackward(k) ==
   /\ Layer = "bn" /\ "bnbwd" \in Acts /\ CanAct /\ k \in 1..Len(fwds)
   /\ bwout' = <<[k |-> k] @@ fwds[k]>>
   /\ out' = None
-  /\ UNCHANGED <<training, rm, rv, nbt, mask, fwds>>
+  /\ UNCHANGED <<training, rm, rv, nbt, mask, fwds, ptraining>>
   /\ hist' = Rec([a |-> "bwd", k |-> k])
 
 \* ---- dropout -----------------------------------------------------------------------
@@ -119,7 +125,7 @@ DropForward(xi, m) ==
      ELSE /\ m = [i \in 1..Len(Inputs[xi]) |-> 1]          \* eval: the identity
           /\ mask' = <<[i \in 1..Len(m) |-> Q1]>>
           /\ out' = <<[i \in 1..Len(Inputs[xi]) |-> QI(Inputs[xi][i])]>>
-  /\ UNCHANGED <<training, rm, rv, nbt, fwds, bwout>>
+  /\ UNCHANGED <<training, rm, rv, nbt, fwds, bwout, ptraining>>
   /\ hist' = Rec([a |-> "fwd", x |-> xi, m |-> m])      \* the mask chosen is part of the behaviour (the driver matches it)
 
 \* backward of the last forward goes through the same mask
@@ -127,11 +133,11 @@ DropBackward(gi) ==
   /\ Layer = "drop" /\ "bwd" \in Acts /\ CanAct /\ mask # None /\ gi \in 1..Len(GradsIn)
   /\ Len(GradsIn[gi]) = Len(mask[1])
   /\ out' = <<[i \in 1..Len(GradsIn[gi]) |-> QMul(QI(GradsIn[gi][i]), mask[1][i])]>>   \* whatever the mode is now
-  /\ UNCHANGED <<training, rm, rv, nbt, mask, fwds, bwout>>
+  /\ UNCHANGED <<training, rm, rv, nbt, mask, fwds, bwout, ptraining>>
   /\ hist' = Rec([a |-> "bwd", g |-> gi])
 
 Next ==
-  \/ \E tr \in BOOLEAN : SetMode(tr)
+  \/ \E tr \in BOOLEAN, on \in {"layer", "root"} : SetMode(tr, on)
   \/ \E st \in StatsSet : SetStats(st)
   \/ \E bi \in 1..Len(Batches) : BNForward(bi)
   \/ \E k \in 1..Len(fwds) : BNBackward(k)
